@@ -117,6 +117,9 @@ def _strict(prog, pid):
         return methods(prog, {ghm: ["conditional_icdf"], f"{DI}.ConditionalDistribution": ["icdf", "_get_param_values"]}) + _family_methods(prog, ["icdf", "_get_scipy_parameters"])
     if pid == "C02":
         return methods(prog, {f"{DI}.ConditionalDistribution": ["cdf", "_get_param_values"]}) + _family_methods(prog, ["cdf", "_get_scipy_parameters"])
+    if pid == "C15":
+        # the enclosed region is computed from the model's cdf on every construction: a cdf that remembers an earlier model gives the boundary of another region
+        return methods(prog, {f"{DI}.ConditionalDistribution": ["cdf", "_get_param_values"]}) + _family_methods(prog, ["cdf", "_get_scipy_parameters"])
     if pid == "C03":
         return methods(prog, {ghm: ["draw_sample"]})
     if pid == "C04":
